@@ -102,6 +102,11 @@ def _task(X):
     paths, exceeded = H.paths(pre + [Script(X, options='unknown')], max_paths=30000, det_prefix=len(hist))
     if exceeded:
         raise AnalysisError('path budget exceeded for %s' % X)
+    from sa.model import Regex as _Regex
+    for p_ in paths:
+        for e_ in getattr(p_, 'full_events', p_.events):
+            if e_.kind == 'regex-apply' and R.header_fn in e_.stack and not isinstance(concrete(e_.data['regex']), _Regex):
+                raise AnalysisError('a regular expression applied in the header parser is not a foldable constant (%s)' % norm(e_.node)[:60])
     for p_ in paths:
         # events of the frozen history are not events of the section under analysis
         cut = [i_ for i_, e_ in enumerate(p_.events) if e_.kind == 'k1-header' and e_.data['index'] == len(hist)]
